@@ -96,6 +96,10 @@ class Interp:
     def _berr(self, name, a, b, ea, eb, r):
         """(err, und) for r = name(a, b), all arrays already broadcast to r's shape"""
         rr = self.r
+        if self.exact:
+            # an operand that already carries an error may tip the final rounding of this operation by one unit in the
+            # last place of the RESULT (which can be far larger than the operand's own error: x + cbrt(x))
+            rr = np.where((ea + eb) > 0, EPS, 0.0)
         with np.errstate(all="ignore"):
             absr = np.abs(r) if r.dtype.kind != "b" else 0.0
             und = np.zeros(r.shape, dtype=bool)
@@ -174,6 +178,8 @@ class Interp:
             absr = np.abs(r)
             und = A.und.copy()
             rr, nn = self.r, self.n
+            if self.exact:
+                rr = np.where(ea > 0, EPS, 0.0)      # see _berr
             if name in ("negative", "positive", "absolute", "fabs", "conj"):
                 dim, err = A.dim, ea
             elif name == "square":
@@ -255,9 +261,12 @@ class Interp:
             else:
                 und = np.asarray(np.logical_or.accumulate(A.und, axis=axis))
                 agg = lambda x: np.asarray(np.add.accumulate(x, axis=axis))
+            rred = self.r
+            if self.exact:
+                rred = np.where(agg(ea) > 0, EPS, 0.0)     # see _berr: every partial sum may round the other way
             if name == "add":
                 dim = A.dim
-                err = agg(ea) + n * self.r * agg(np.abs(a))
+                err = agg(ea) + n * rred * agg(np.abs(a))
             elif name in ("maximum", "minimum", "fmax", "fmin"):
                 dim = A.dim
                 err = np.asarray(getattr(np.maximum, method)(ea, axis=axis))
@@ -269,7 +278,7 @@ class Interp:
                     raise RefError("cumulative product has no single unit")
                 lo = np.abs(a) - ea
                 bad = (lo <= 0) & (ea > 0)
-                rel = agg(np.where(lo > 0, ea / np.where(lo > 0, lo, 1.0), 0.0)) + n * self.r
+                rel = agg(np.where(lo > 0, ea / np.where(lo > 0, lo, 1.0), 0.0)) + n * rred
                 und = und | np.asarray(np.logical_or.reduce(bad, axis=axis))
                 err = rel * absr * (1 + 1e-6)
                 dim = dims.power(A.dim, n if name == "multiply" else 2 - n)
@@ -277,7 +286,7 @@ class Interp:
                 if method != "reduce":
                     raise RefError("subtract.accumulate not modelled")
                 dim = A.dim
-                err = agg(ea) + n * self.r * agg(np.abs(a))
+                err = agg(ea) + n * rred * agg(np.abs(a))
             else:
                 raise RefError(name)
         return Val(r, dim, err, und)
@@ -297,7 +306,10 @@ class Interp:
             else:
                 g = lambda x, y: np.asarray(f(x, y))
             n = max(A.si.shape[-1] if A.si.ndim else 1, 1)
-            err = g(aa, B.err) + g(A.err, ab) + g(A.err, B.err) + (n + 1) * self.r * g(aa, ab)
+            rprod = self.r
+            if self.exact and (np.any(A.err > 0) or np.any(B.err > 0)):
+                rprod = EPS                                  # see _berr
+            err = g(aa, B.err) + g(A.err, ab) + g(A.err, B.err) + (n + 1) * rprod * g(aa, ab)
             und_any = bool(A.und.any() or B.und.any())
         return Val(r, dims.mul(A.dim, B.dim), err, np.full(r.shape, und_any))
 
@@ -319,7 +331,7 @@ class Interp:
             with np.errstate(all="ignore"):
                 r = np.asarray(np.mean(a, axis=axis))
                 n = a.size if axis is None else (int(np.prod([a.shape[x] for x in axis])) if isinstance(axis, tuple) else a.shape[axis])
-                err = np.asarray(np.mean(ea, axis=axis)) + (n + 1) * max(self.r, EPS if not self.exact else 0.0) * np.asarray(np.mean(np.abs(a), axis=axis))
+                err = np.asarray(np.mean(ea, axis=axis)) + (n + 1) * max(self.r, EPS if (not self.exact or np.any(ea > 0)) else 0.0) * np.asarray(np.mean(np.abs(a), axis=axis))
                 und = np.asarray(np.logical_or.reduce(A.und, axis=axis))
             return Val(r, A.dim, err, und)
         raise RefError(fname)
